@@ -118,26 +118,34 @@ IncohFailed(e) ==
 (***************************************************************************)
 (* C05: the chirp                                                          *)
 (***************************************************************************)
-\* phase budget B (cycles, Rat) and exact phase of one bin; f must be > 0
+\* phase (floor(phase * 2^75), see Dedisp 1b) and 7 * budget B (Fix, rounded up)
+\* of one bin; f must be > 0
 BinInfo(kdm, fc, fref, N, dt, k) ==
   LET bin == RDiv(RI(FftBin(k, N)), RMul(RI(N), dt))
       f == RAdd(fc, bin)
-      d == ChirpDelta(f, fref)
-      T == RMul(RAbs(kdm), RAbs(d))
-      fd == RMul(f, RAbs(d))
-      rho == RDiv(RAdd(RAbs(fc), RAbs(bin)), f)
-  IN [pos |-> RSign(f) > 0,
-      phase |-> RMul(RMul(kdm, f), RMul(d, d)),
-      bud |-> RMul(RMul(RPow2(-49), rho), RMul(T, RAdd(fd, RAdd(ROne, RDiv(f, fref)))))]
+      pos == RSign(f) > 0
+      \* rho * (f |D| + 1 + f / fref) = rho * (|f - fref| + fref + f) / fref
+      g == RMul(RDiv(RAdd(RAbs(fc), RAbs(bin)), f),
+                RDiv(RAdd(RAbs(RSub(f, fref)), RAdd(fref, f)), fref))
+  IN [pos |-> pos,
+      phase |-> IF pos THEN ChirpPhaseFix(kdm, f, fref) ELSE Zero,
+      \* 7 * 2^-49 * K|DM||D| * g * 2^60 < 2^14 * (...), + 2 for the roundings
+      bud |-> IF pos THEN Add(ChirpSlopeFix(kdm, f, fref, g, 14), FromInt(2)) ELSE Zero,
+      exact |-> IF pos THEN PhaseFixAgrees(kdm, f, fref) ELSE FALSE]
+PhaseH(v) == ChirpH(R(Mod(v, Pow2(PFBITS)), Pow2(PFBITS)))
 Tol2em6 == FFromRat(RMul(RI(2), RPow10(-6)))
-BudFix(bud) == Add(FFromRat(RMul(RI(7), bud)), One)
+BudFix(bud) == bud
 BinOK(kdm, fc, fref, N, dt, k, val) ==
   LET b == BinInfo(kdm, fc, fref, N, dt, k)
-  IN b.pos /\ CClose(val, ChirpH(b.phase), Add(Tol2em6, BudFix(b.bud)))
+  IN b.pos /\ CClose(val, PhaseH(b.phase), Add(Tol2em6, b.bud))
 
 ChirpFailed(e) ==
   LET kdm == KDM(e.dm)
   IN Ok(\A j \in 1..Len(e.ks) : BinOK(kdm, e.fc, e.fref, e.N, e.dt, e.ks[j], e.vals[j]), "chirp-law")
+     \* sampled self-check of the bounded-precision phase against the exact one
+     \cup (IF e.xcheck >= 0
+           THEN Ok(BinInfo(kdm, e.fc, e.fref, e.N, e.dt, e.xcheck).exact, "precondition-phasefix")
+           ELSE {})
 
 (***************************************************************************)
 (* C05: coherent dedispersion                                              *)
@@ -179,7 +187,7 @@ ToneFailed(e) ==
                  CClose(x[IF i = N THEN 1 ELSE i + 1], CMul(x[i], wk), MulInt(tol9, scale))
           ChanOK(c) ==
             LET b == BinInfo(kdm, e.fq[c], e.fref, N, e.dt, e.ks[c])
-                h == ChirpH(b.phase)
+                h == PhaseH(b.phase)
                 tol == MulInt(Add(FTol10(5), BudFix(b.bud)), scale)
             IN b.pos /\ \A j \in 1..w.len :
                  CClose(e.out[c][j], CMul(h, e.x[c][w.first + j]), tol)
@@ -200,10 +208,10 @@ DdFailed(e) ==
           Chan(c) ==
             LET info == [k \in 1..N |-> BinInfo(kdm, e.fq[c], e.fref, N, e.dt, k - 1)]
                 X == FDft([i \in 1..N |-> CFromInts(e.x[c][i][1], e.x[c][i][2])])
-                y == IDft([k \in 1..N |-> CMul(X[k], ChirpH(info[k].phase))])
+                y == IDft([k \in 1..N |-> CMul(X[k], PhaseH(info[k].phase))])
                 RECURSIVE mx(_, _)
-                mx(k, m) == IF k > N THEN m ELSE mx(k + 1, RMax(m, info[k].bud))
-            IN [y |-> y, bud |-> mx(1, RZero), pos |-> \A k \in 1..N : info[k].pos]
+                mx(k, m) == IF k > N THEN m ELSE mx(k + 1, IF Lt(m, info[k].bud) THEN info[k].bud ELSE m)
+            IN [y |-> y, bud |-> mx(1, Zero), pos |-> \A k \in 1..N : info[k].pos]
           ChanOK(c) ==
             LET r == Chan(c)
                 \* |delta y| <= sqrt(N) max|x| max|delta H|; sqrt(8) < 3
